@@ -1,0 +1,92 @@
+//go:build verif
+
+// Executable contracts (bounded stand-ins) for package cmd. Compiled only with -tags verif.
+package cmd
+
+import (
+	"os"
+	"path/filepath"
+	"strings"
+
+	"github.com/rs/zerolog"
+
+	"github.com/coreruleset/crs-toolchain/v2/context"
+	"github.com/coreruleset/crs-toolchain/v2/regex/processors"
+)
+
+var boundedDir string
+
+func boundedFile(name, content string) string {
+	if boundedDir == "" {
+		d, err := os.MkdirTemp("", "govc-bounded-")
+		if err != nil {
+			panic(err)
+		}
+		boundedDir = d
+	}
+	p := filepath.Join(boundedDir, name)
+	if err := os.WriteFile(p, []byte(content), 0o644); err != nil {
+		panic(err)
+	}
+	return p
+}
+
+// BoundedFormat (C09, C10): for every .ra file built from these line tokens that format
+// accepts: formatting the formatted file again changes nothing; --check then succeeds and
+// does not write; and the sequence of lines with white space removed is the input's, apart
+// from the added header and removed trailing empty lines.
+//@ directive[C09,C10] bounded BoundedFormat quick=3 thorough=4 tokens="##! Please refer to the documentation at\n" "##! https://coreruleset.org/docs/development/regex_assembly/.\n" "\n" "foo\n" "  ##!>  assemble\n" "##!<\n" "##!+ i\n" "\t##! c ##!> include x\n" "##!> include-except a  b -- x y\n" "bar"
+
+func BoundedFormat(in string) string {
+	zerolog.SetGlobalLevel(zerolog.Disabled)
+	ctxt := processors.NewContext(context.New("/nonexistent-root", "toolchain.yaml"))
+	p := boundedFile("f.ra", in)
+	if err := processFile(p, ctxt, false); err != nil {
+		// rejected (unbalanced block end): the file must be untouched
+		if b, _ := os.ReadFile(p); string(b) != in {
+			return "format failed but modified the file"
+		}
+		return ""
+	}
+	once, _ := os.ReadFile(p)
+	if err := processFile(p, ctxt, false); err != nil {
+		return "formatting the formatted file fails: " + err.Error()
+	}
+	twice, _ := os.ReadFile(p)
+	if string(once) != string(twice) {
+		return "not idempotent: " + strings.ReplaceAll(string(once), "\n", "\\n") + " then " + strings.ReplaceAll(string(twice), "\n", "\\n")
+	}
+	if err := processFile(p, ctxt, true); err != nil {
+		return "--check rejects what format just wrote"
+	}
+	if after, _ := os.ReadFile(p); string(after) != string(twice) {
+		return "--check modified the file"
+	}
+	strip := func(s string) []string {
+		var out []string
+		for _, l := range strings.Split(s, "\n") {
+			l = strings.Join(strings.Fields(l), "")
+			out = append(out, l)
+		}
+		for len(out) > 0 && out[len(out)-1] == "" {
+			out = out[:len(out)-1]
+		}
+		return out
+	}
+	a, b := strip(in), strip(string(once))
+	hdr := strip(regexAssemblyStandardHeader)
+	if len(b) >= len(hdr)+len(a) && len(b) > len(a) {
+		b = b[len(b)-len(a):]
+	}
+	// compare the tails (the header may have been added in front)
+	for len(a) > 0 && len(b) > 0 {
+		if a[len(a)-1] != b[len(b)-1] {
+			return "line content changed: " + a[len(a)-1] + " became " + b[len(b)-1]
+		}
+		a, b = a[:len(a)-1], b[:len(b)-1]
+	}
+	if len(a) > 0 {
+		return "a line was lost: " + a[len(a)-1]
+	}
+	return ""
+}
